@@ -35,11 +35,26 @@ def coerce(value):
 
 
 class ConfScenario(WorldScenario):
+    def __init__(self, props, profile, seed=None, replay=None, keep_trace=True):
+        super().__init__(props, profile, seed=seed, replay=replay, keep_trace=keep_trace)
+        if not self.replaying:
+            # one workflow file linked into the project directory from a shared place (the configuration still
+            # belongs to the project: it lives next to the file gwf was pointed at)
+            self.knobs["wf_symlink"] = self.rng.fork("wf_symlink").chance(0.2)
+
     def setup(self, w):
         super().setup(w)
         self.m_conf = dict(w.config)
         self.tracked_nonempty = set()
         self.env_no_color = False
+        if self.knobs.get("wf_symlink"):
+            shared = os.path.join(w.base, "sharedwf")
+            os.makedirs(shared, exist_ok=True)
+            wf = w.path("workflow.py")
+            if not os.path.islink(wf):
+                os.replace(wf, os.path.join(shared, "workflow.py"))
+                os.symlink(os.path.join(shared, "workflow.py"), wf)
+            w.probe("symlinked_workflow_file")
 
     def _init_ops(self, w, r):
         return []
@@ -66,6 +81,11 @@ class ConfScenario(WorldScenario):
         if x < 0.66:
             return {"op": "env_no_color", "on": r.chance(0.5)}
         flag_b = r.pick([None, None, "slurm", "sge", "lsf", "local"])
+        if self.knobs.get("wf_symlink"):
+            # relative paths of the workflow resolve next to the real file: commands that build the graph are not
+            # part of this variant, the configuration commands are
+            keys = [k for k, v in self.m_conf.items() if not (isinstance(v, str) and "\udce9" in v)] + ["verbose", "never.set"]
+            return {"op": "conf_get", "key": r.pick(keys), "cwd": cwd}
         return {"op": "effect", "cmd": r.pick(["status", "status", "run"]), "b": flag_b,
                 "v": r.pick([None, None, "debug", "info", "warning"]),
                 "color": r.pick([None, None, "--no-color", "--use-color"]), "cwd": cwd,
@@ -124,7 +144,8 @@ class ConfScenario(WorldScenario):
             return
         if data != self.m_conf:
             w.flag("C20", "config_file_content", f"after {op['op']} {op['key']!r}: file {data}, expected {self.m_conf}")
-        for stray in (os.path.join(w.proj, "d", ".gwfconf.json"), os.path.join(w.base, "elsewhere", ".gwfconf.json")):
+        for stray in (os.path.join(w.proj, "d", ".gwfconf.json"), os.path.join(w.base, "elsewhere", ".gwfconf.json"),
+                      os.path.join(w.base, "sharedwf", ".gwfconf.json")):
             if os.path.exists(stray):
                 w.flag("C20", "config_file_misplaced", stray.replace(w.base, "$BASE"))
         w.probe("file_checks")
